@@ -54,7 +54,8 @@ From Turn Require Import Common RelayCheck RelayProps RelayTrace RelayTime Relay
 (* the predicate evaluated on the implementation's observed traces (chk_C08: bindings one-to-one and in range after every
    step, ChannelData numbers in range, a conflicting or out-of-range ChannelBind that is answered is answered by an error
    and changes nothing; and "repeating an existing binding refreshes it": a binding exists exactly until one channel
-   timeout after the last successful ChannelBind for it, chk_C07) holds on every trace of the model with positive
+   timeout after the last successful ChannelBind for it, chk_C07; and emission: every ChannelData toward the client
+   carries a number bound, when the datagram arrived, to exactly the peer it came from, chk_C08_emit) holds on every trace of the model with positive
    timeouts and a default lifetime in whole seconds *)
 Theorem C08_predicate_holds_on_every_model_trace : forall cfg ep h,
   cfg_seconds cfg -> cfg_positive cfg -> chk_C08 (model_case cfg ep h) = true.
